@@ -25,7 +25,9 @@ def rule_window(fx, rep):
             continue
         rep.fn(p)
         try:
-            I = exp.Interp(fx, 'none', max_paths=128)
+            import inline as INL
+            I = exp.Interp(fx, 'none', max_paths=128, inline=lambda q: INL.is_private_helper(fx, q))
+            I.fork_inlined = True
             res = I.run(p, [TOP])
             rep.sites(I.call_sites)
         except (exp.NotDerivable, exp.Budget) as e:
